@@ -465,7 +465,7 @@ def plan(ctx):
             for kern in ("tpcn", "rwm"):
                 for norm in (True, False):
                     for cap in (None, 1, 2):
-                        if not th and (hash((ce, ratio, kern, norm, cap)) + ctx.seed) % 3:
+                        if not th and (hash((ce, ratio, kern, norm, cap)) + ctx.seed) % 4:
                             continue
                         c.append({"kind": "cadence", "base": ctx.seed, "all_checkpoints": th, "cfg": dict(clustering=True, cluster_every=ce, ess_ratio=ratio, sample=kern, normalize=norm,
                                                                                  n_max_clusters=cap, target="unequal" if (ce + int(ratio)) % 2 else "bimodal",
@@ -477,7 +477,7 @@ def plan(ctx):
                                                                                                      n_max_clusters=None, target=tgt, n_particles=npart, n_total=12)})
     ctx.bounds.update({"scripted": {"K": [2, 3], "m": [4, 5, 6], "n_resampled": 3}, "cadence": {"cluster_every": [1, 2, 3, 4, 5, 7], "configs": len(c), "resume": "from every checkpoint"}})
     if not th:
-        ctx.notes.append("quick: one third of the cadence lattice and one eighth of the three-blob pools (rotated by VERIF_SEED); every selected run is resumed from every checkpoint")
+        ctx.notes.append("quick: one quarter of the cadence lattice and one eighth of the three-blob pools (rotated by VERIF_SEED); every selected run is resumed from every checkpoint")
     ses = []
     for ce in (2, 3):
         for tgt in ("bimodal", "unequal"):
